@@ -13,7 +13,7 @@ impl ProgProperty for C10 {
         "C10"
     }
     fn rule(&self) -> String {
-        "structured / raw / roaming programs with a halting canonical run, x input x width; the tape is pre-allocated with make_accessible(min_ptr - L, max_ptr + L + 1) where [min_ptr, max_ptr] is the canonical pointer excursion and L the program length (the margin the property names), then execute_unsafe runs on the bytecode interpreter and the JIT at 2 drawn levels each, twice: with the region flush against a PROT_NONE page on the right and on the left (guard-page allocator). Oracle: events equal the reference, no SIGSEGV/SIGBUS. Non-trivial: the canonical run moves at least 8 cells from the origin and the bytecode contains a pointer move or scan (hook); distinct = distinct (program, input, width)".into()
+        "structured / raw / roaming programs with a halting canonical run, x input x width; the tape is pre-allocated with make_accessible(min_ptr - L, max_ptr + L + 1) where [min_ptr, max_ptr] is the canonical pointer excursion and L the program length (the margin the property names), then execute_unsafe runs on the bytecode interpreter and the JIT at 2 drawn levels each, twice: with the region flush against a PROT_NONE page on the right and on the left (guard-page allocator). Oracle: events equal the reference, no SIGSEGV/SIGBUS. Non-trivial: the canonical run moves at least 8 cells from the origin and the bytecode contains a pointer move or scan (hook); distinct = distinct (program, input, width) A third of the halting programs at 16/32 bit and two thirds at 64 bit carry the upper-bits probe (family `...+probe`): an appended epilogue takes the canonical final value of every small-magnitude cell out again, counts the cells in which anything is left and prints the count (0 canonically), which makes the bits above the low byte observable.".into()
     }
     fn assumptions(&self) -> Vec<String> {
         vec!["only the region's flush side is byte-exact, the other side has up to a page of slack; both placements are run for every case".into()]
@@ -72,6 +72,9 @@ impl ProgProperty for C10 {
             stats.class("excursion>=8")
         }
         far && moves
+    }
+    fn probe_upper_bits(&self) -> bool {
+        true
     }
     fn floors(&self, tier: Tier) -> Vec<(&'static str, u64)> {
         let q = if tier == Tier::Quick { 1 } else { 20 };
